@@ -341,7 +341,7 @@ Section Case.
     else "differs-from-reference".
 
   (** the Spec oracle on the implementation's observation *)
-  Definition oracle : option sexp :=
+  Definition oracle (ref_vv : option (list (name * gval))) (ref_am : option (list (name * gval))) : option sexp :=
     if match o_static o with VPanic => true | _ => false end then Some (v_oracle_fail "panic-in-validation" [])
     else if match o_exec o with VPanic => true | _ => false end then
       Some (v_oracle_fail (if has_vars && null_var then "panic-null-through-variable" else "panic-in-execution") [])
@@ -353,7 +353,6 @@ Section Case.
           match o_static o with
           | VOk =>
               (* the document was accepted: the observation must be the reference coercion *)
-              let ref_vv := ref_variable_values E dt defs raw in
               match ref_vv with
               | None =>
                   if match o_exec o with VReject => true | _ => false end && match o_calls o with [] => true | _ => false end
@@ -362,8 +361,8 @@ Section Case.
                                             | [] => "no-error-although-variables-do-not-coerce"
                                             | _ => differs_key
                                             end) [])
-              | Some vv =>
-                  match ref_argument_values E dt argdefs (map (fun p => match p with (k, l) => (k, abs_lit vv l) end) args) with
+              | Some _ =>
+                  match ref_am with
                   | None =>
                       (* no coercion exists: nothing may be called; a field answers with an error
                          (a directive whose arguments do not coerce is ignored, as in CollectFields) *)
@@ -403,14 +402,7 @@ Section Case.
     end.
 
   (** the model's prediction of the observation *)
-  Definition compare : option sexp :=
-    let st := static_ok all_fixed E dt site_field argdefs defs args in
-    let vv := coerce_variable_values all_fixed E dt defs raw in
-    let am := match vv with
-              | Ok v => coerce_argument_values all_fixed E dt argdefs args v
-              | Err => Err
-              | Panic => Panic
-              end in
+  Definition compare (st : bool) (vv : res cvars) (am : res (list (name * gval))) : option sexp :=
     let exp_static := if st then VOk else VReject in
     let '(exp_exec, exp_calls, exp_ran) :=
       if negb st then (VNone, [], false)
@@ -424,7 +416,8 @@ Section Case.
                | Panic => (VPanic, [], false)
                end
            end in
-    let exp_cost := if site_field then cost_observation all_fixed E dt site_field argdefs defs args raw else [] in
+    (* cost_observation all_fixed, with the shared intermediate results *)
+    let exp_cost := if site_field && st then match am with Ok m => [m] | _ => [] end else [] in
     if negb (verdict_eqb exp_static (o_static o)) then
       Some (v_mismatch "static-verdict" [of_bool st])
     else if negb (verdict_eqb exp_exec (o_exec o)) then Some (v_mismatch "execution-verdict" [])
@@ -434,9 +427,8 @@ Section Case.
     else None.
 
   (** evidence classes *)
-  Definition classes : list string :=
-    let st := static_ok all_fixed E dt site_field argdefs defs args in
-    let vv := coerce_variable_values all_fixed E dt defs raw in
+  Definition classes (st : bool) (vv : res cvars) (am : res (list (name * gval)))
+             (ref : option (list (name * gval))) : list string :=
     let nested := existsb (fun a => match snd a with LVar _ => false | l => match lit_vars l with [] => false | _ => true end end) args in
     let top_var := existsb (fun a => match snd a with LVar _ => true | _ => false end) args in
     let has_default := existsb (fun ad => match in_default (snd ad) with Some _ => true | None => false end) argdefs in
@@ -444,7 +436,7 @@ Section Case.
     (if site_field then ["site-field"] else ["site-directive"]) ++
     (if st then [] else ["static-reject"]) ++
     (if st then match vv with
-                | Ok v => match coerce_argument_values all_fixed E dt argdefs args v with
+                | Ok v => match am with
                           | Ok _ => ["called"]
                           | Err => ["argument-error"]
                           | Panic => ["panic"]
@@ -456,7 +448,7 @@ Section Case.
     (if negb has_vars then ["literal-only"] else []) ++
     (if has_default then ["argument-default"] else []) ++ (if var_default then ["variable-default"] else []) ++
     (if null_var then ["null-variable"] else []) ++
-    (match o_static o, ref_request E dt argdefs defs args raw with
+    (match o_static o, ref with
      | VReject, Some _ => ["static-reject-reference-accepts"]
      | _, _ => []
      end) ++
@@ -485,15 +477,29 @@ Definition check (c : sexp) : sexp :=
               else if existsb (fun d => match vd_default d with Some l => match lit_vars l with [] => false | _ => true end | None => false end) defs
                    then v_bad "variable-in-default"
               else
-                match oracle E T site_field argdefs defs args raw o with
+                let dt := dt_of T in
+                (* the model (repaired code) and the reference, each evaluated once *)
+                let st := static_ok all_fixed E dt site_field argdefs defs args in
+                let vv := coerce_variable_values all_fixed E dt defs raw in
+                let am := match vv with
+                          | Ok v => coerce_argument_values all_fixed E dt argdefs args v
+                          | Err => Err
+                          | Panic => Panic
+                          end in
+                let ref_vv := ref_variable_values E dt defs raw in
+                let ref_am := match ref_vv with
+                              | Some v => ref_argument_values E dt argdefs (map (fun p => match p with (k, l) => (k, abs_lit v l) end) args)
+                              | None => None
+                              end in
+                match oracle E site_field argdefs args raw o ref_vv ref_am with
                 | Some v => v
                 | None =>
                     match oracle_cost E argdefs args raw o with
                     | Some v => v
                     | None =>
-                        match compare E T site_field argdefs defs args raw o with
+                        match compare site_field o st vv am with
                         | Some v => v
-                        | None => v_ok (classes E T site_field argdefs defs args raw o)
+                        | None => v_ok (classes site_field argdefs defs args raw o st vv am ref_am)
                         end
                     end
                 end
